@@ -108,6 +108,12 @@ fn scenarios(ctx: &Ctx) -> Vec<Scenario> {
   add("ipv6-ok", true, vec![good_c(50)], vec![good_a(p6.clone())]);
   add("ipv6-stride-6-list", true, vec![good_c(51)], vec![good_a(p3.clone())]);
   add("ipv6-ragged", true, vec![good_c(52)], vec![good_a(p6[..35].to_vec())]);
+  // records in the low corners of the IPv6 space are IPv6 records like any other: ::1, IPv4-mapped, IPv4-compatible, ::
+  let rec6 = |a: &str, port: u16| -> Vec<u8> { let mut v = a.parse::<Ipv6Addr>().unwrap().octets().to_vec(); v.extend_from_slice(&port.to_be_bytes()); v };
+  let corners: Vec<u8> = ["::1", "::ffff:10.0.0.1", "::10.0.0.1", "2001:db8::1", "::", "::ffff:0.0.0.0", "64:ff9b::10.0.0.1", "::ffff:10.0.0.2"].iter().flat_map(|a| rec6(a, 6881)).collect();
+  add("ipv6-records-in-the-low-corners", true, vec![good_c(56)], vec![good_a(corners)]);
+  let corners2: Vec<u8> = [("::10.0.0.1", 1), ("::ffff:10.0.0.1", 1), ("::10.0.0.1", 2), ("::0.0.0.2", 65535)].iter().flat_map(|(a, p)| rec6(a, *p)).collect();
+  add("ipv6-records-mapped-and-compatible-twins", true, vec![good_c(57)], vec![good_a(corners2)]);
   add("ipv6-connect-drop", true, vec![Resp::Drop, good_c(53)], vec![good_a(p6.clone())]);
   for n in [6usize, 12, 24, 30] {
     // lists that would be whole in IPv4 records are ragged in IPv6 ones
